@@ -1270,6 +1270,16 @@ fn simplify(c: &Case) -> Vec<Case> {
     v
 }
 
+/// libFuzzer entry: the input bytes are the entropy tape (little-endian u32 words); same
+/// generator, same oracle as the proptest tiers.
+#[allow(dead_code)]
+pub fn fuzz_bytes(data: &[u8]) {
+    let tape = fv::tape::words_from_bytes(data, 1600);
+    let case = decode(&mut Tape::new(&tape));
+    engine::fuzz_one("C07", &case, &render, &check);
+}
+
+#[allow(dead_code)]
 fn main() -> std::process::ExitCode {
     let mut spec = Spec::new(
         "C07",
